@@ -253,6 +253,17 @@ def check_case(case):
         except Exception as e:
             res.v(("C07.solve-exception", type(e).__name__), "%s order %s" % (e, o))
             continue
+        if case.get("move"):
+            # after a first analysis a leaf load is deleted and added again under ANOTHER parent (same node and edge counts, freed index re-used)
+            from ..sysmodel import move_leaf
+            d0 = resolve(spec)
+            leaves = sorted(n for n in d0 if d0[n]["k"] in ("ILoad", "PLoad") and len(d0[n]["parents"]) == 1)   # sorted: the choice must not depend on the construction order
+            tgt = sorted(n for n in d0 if d0[n]["k"] not in ("ILoad", "PLoad", "RLoad") and (not leaves or n != d0[leaves[0]]["parents"][0]))
+            if leaves and tgt:
+                newp = sorted(n for n in tgt if d0[n]["k"] == "Source")[-1:] or tgt[-1:]
+                spec = move_leaf(s, spec, leaves[0], newp[0])
+                df, _ = quiet_call(s.solve, energy=case["energy"])
+                res.stats["transitions"] += 3
         if case.get("rename_src"):
             # after a first analysis the source(s) are replaced by identical ones with NEW names (change_comp): every aggregate follows the new names
             from ..sysmodel import make_comp
@@ -346,6 +357,8 @@ def gen_cases(tier):
             if len(st) <= 6 and "M" in st:
                 for ph_ in (False, True):
                     yield dict(struct={k: [v[0], list(v[1])] for k, v in st.items()}, pal=pal, volts=list(volts), phased=ph_, energy=ph_, rename_src=True)
+            if len(st) <= 6:
+                yield dict(struct={k: [v[0], list(v[1])] for k, v in st.items()}, pal=pal, volts=list(volts), phased=False, energy=False, move=True)
             if "M" in st and len(st) <= 6:  # negative rails through the mux
                 yield dict(struct={k: [v[0], list(v[1])] for k, v in st.items()}, pal=pal, volts=list(volts), phased=False, energy=False, pol=-1)
 
